@@ -353,6 +353,7 @@ inductive RouteKind where
   | ping            -- servePing
   | write           -- serveWrite (receives the user: authorizeForward)
   | optionsWrite    -- ServeOptions
+  | other           -- any other handler NewHandler installs (routes list, log level, pprof, expvar): it runs
   | recorder        -- a route added by the harness through Handler.AddRoutes: records that it ran
 deriving Repr, DecidableEq
 
@@ -360,6 +361,8 @@ structure Route where
   method : List Char
   pattern : Path
   kind : RouteKind
+  bypass : Bool := false      -- Route.BypassAuth
+  forward : Bool := false     -- the handler has the AuthorizationHandler signature (authorizeForward)
 deriving Repr, DecidableEq
 
 /-- `pathMatch` of mux.go. -/
@@ -386,18 +389,24 @@ def muxCleanPath (p : Path) : Path :=
     let np := clean p
     if p.getLast? = some '/' ∧ np ≠ ['/'] then np ++ ['/'] else np
 
-def allowedMethods : List (List Char) :=
-  ["GET".toList, "POST".toList, "PATCH".toList, "PUT".toList, "DELETE".toList, "HEAD".toList, "OPTIONS".toList]
+/-- The `allowedMethods` of NewHandler (regenerated): the methods that have a mux at all. -/
+def allowedMethods : List (List Char) := Gen.allowedMethods
 
 def preview : Path := Gen.basePreviewPath
 def base : Path := Gen.basePath
 
-/-- The routes `NewHandler` installs that the harness can reach, plus the harness's own (`extra`). -/
+/-- The handler expressions of NewHandler's Route literals, by what they do. -/
+def kindOf (handler : List Char) : RouteKind :=
+  if handler = "h.serve404".toList then .notFound
+  else if handler = "h.rewritePreview".toList then .preview
+  else if handler = "h.servePing".toList then .ping
+  else if handler = "h.serveWrite".toList then .write
+  else if handler = "ServeOptions".toList then .optionsWrite
+  else .other
+
+/-- Every route `NewHandler` installs, regenerated from its Route literals (the per-method loop expanded). -/
 def builtinRoutes : List Route :=
-  (allowedMethods.flatMap fun m => [⟨m, ['/'], .notFound⟩, ⟨m, preview ++ ['/'], .preview⟩]) ++
-  [⟨"GET".toList, base ++ "/ping".toList, .ping⟩, ⟨"HEAD".toList, base ++ "/ping".toList, .ping⟩,
-   ⟨"POST".toList, base ++ "/write".toList, .write⟩, ⟨"OPTIONS".toList, base ++ "/write".toList, .optionsWrite⟩,
-   ⟨"POST".toList, "/write".toList, .write⟩, ⟨"OPTIONS".toList, "/write".toList, .optionsWrite⟩]
+  Gen.routes.map fun r => { method := r.method, pattern := r.pattern, kind := kindOf r.handler, bypass := r.bypassAuth, forward := r.forward }
 
 structure Req where
   method : List Char
@@ -408,16 +417,24 @@ deriving Repr, DecidableEq
 
 structure HttpOut where
   status : Nat
-  served : Bool := false        -- a `recorder`/`ping`/`optionsWrite` handler ran
+  served : Bool := false        -- a route handler other than serve404 / rewritePreview / serveWrite ran
   wrote : Bool := false         -- PointsWriter.WritePoints was called
   user : Option Account := none -- the user the LAST authenticate() stage let through (ghost, not observable)
 deriving Repr, DecidableEq
 
 structure Cfg where
   requireAuth : Bool
+  exposePprof : Bool := false   -- [http] pprof-enabled
   svc : AuthSvc := {}
   extra : List Route := []      -- routes added with AddRoutes (patterns already carry BasePath)
 deriving Repr
+
+/-- `addRawRoute`: with which `requireAuthentication` the route's handler is wrapped. A handler that receives
+the user always gets the configured value; a plain handler is exempt exactly when the route says `BypassAuth`
+AND pprof is exposed. -/
+def routeRequiresAuth (cfg : Cfg) (r : Route) : Bool :=
+  if r.forward then cfg.requireAuth
+  else if r.bypass && cfg.exposePprof then false else cfg.requireAuth
 
 /-- `serveWriteLine` after the body was parsed. -/
 def serveWriteLine (req : Req) (u : Account) : HttpOut :=
@@ -425,30 +442,37 @@ def serveWriteLine (req : Req) (u : Account) : HttpOut :=
   else if authorizeAction u.user (databaseResource req.db) writePriv ≠ .allow then { status := 401, user := some u }
   else { status := 204, wrote := true, user := some u }
 
-/-- `Handler.ServeHTTP` → mux → cors → authenticate → authorize → route handler. `fuel` bounds the
-re-entry through `rewritePreview` (one level is all that can happen). -/
+/-- The request after `rewritePreview`. -/
+def rewritten (req : Req) : Req := { req with path := base ++ req.path.drop preview.length }
+
+/-- One pass `Handler.ServeHTTP` → mux → cors → authenticate → authorize → route handler; `again` is
+`h.ServeHTTP` called once more by `rewritePreview`. -/
+def serveLevel (cfg : Cfg) (again : Req → HttpOut) (req : Req) : HttpOut :=
+  if !allowedMethods.contains req.method then { status := 404 }            -- no mux for the method: serve404
+  else if muxCleanPath req.path ≠ req.path then { status := 301 }          -- redirect, no handler runs
+  else match muxMatch (builtinRoutes ++ cfg.extra) req.method req.path with
+    | none => { status := 404 }
+    | some r =>
+      if req.method = "OPTIONS".toList then { status := 200 }              -- cors(): returns before inner
+      else match authenticate (routeRequiresAuth cfg r) cfg.svc req.auth with
+        | .rejected => { status := 401 }
+        | .inner u wroteErr =>
+          if !authorizeRequest req.method req.path u then { status := if wroteErr then 401 else 403 }
+          else match r.kind with
+            | .notFound => { status := if wroteErr then 401 else 404, user := some u }
+            | .ping => { status := if wroteErr then 401 else 204, served := true, user := some u }
+            | .optionsWrite => { status := if wroteErr then 401 else 204, served := true, user := some u }
+            | .other => { status := if wroteErr then 401 else 200, served := true, user := some u }
+            | .recorder => { status := if wroteErr then 401 else 200, served := true, user := some u }
+            | .write => serveWriteLine req u
+            | .preview =>
+              if preview.isPrefixOf req.path then again (rewritten req)
+              else { status := 404, user := some u }
+
+/-- `Handler.ServeHTTP`. `fuel` bounds the re-entry through `rewritePreview` (theorem `preview_depth_one`:
+two passes are all that can happen; 508 = fuel exhausted never shows). -/
 def serveHTTP (cfg : Cfg) : Nat → Req → HttpOut
   | 0, _ => { status := 508 }
-  | fuel + 1, req =>
-    if !allowedMethods.contains req.method then { status := 404 }            -- no mux for the method: serve404
-    else if muxCleanPath req.path ≠ req.path then { status := 301 }          -- redirect, no handler runs
-    else match muxMatch (builtinRoutes ++ cfg.extra) req.method req.path with
-      | none => { status := 404 }
-      | some r =>
-        if req.method = "OPTIONS".toList then { status := 200 }              -- cors(): returns before inner
-        else match authenticate cfg.requireAuth cfg.svc req.auth with
-          | .rejected => { status := 401 }
-          | .inner u wroteErr =>
-            if !authorizeRequest req.method req.path u then { status := if wroteErr then 401 else 403 }
-            else match r.kind with
-              | .notFound => { status := if wroteErr then 401 else 404, user := some u }
-              | .ping => { status := if wroteErr then 401 else 204, served := true, user := some u }
-              | .optionsWrite => { status := if wroteErr then 401 else 204, served := true, user := some u }
-              | .recorder => { status := if wroteErr then 401 else 200, served := true, user := some u }
-              | .write => serveWriteLine req u
-              | .preview =>
-                if preview.isPrefixOf req.path then
-                  serveHTTP cfg fuel { req with path := base ++ req.path.drop preview.length }
-                else { status := 404, user := some u }
+  | fuel + 1, req => serveLevel cfg (serveHTTP cfg fuel) req
 
 end Kap.C20
